@@ -2,5 +2,5 @@ CONSTANTS NodeId = 5  NT = 1  NR = 1  Walk = FALSE  WalkLen = 0  PoolN = 16  Cfg
 CONSTANT Objs <- MCObjs  ObjOrder <- MCOrder  V0 <- MCV0  TC0 <- TC14X  RC0 <- RC14  Sync0 <- S12  Letters <- L14X  ProbeLetters <- P14X  Probe2Letters <- PNone
 INIT Init
 NEXT Next
-VIEW View
+VIEW ViewM
 INVARIANT InvPdo
